@@ -30,14 +30,18 @@ Definition entry_rel (free : N -> bool) (a b : N * (N * list N)) : Prop :=
 Lemma enc_pos_rel c fp1 fp2 genc1 genc2 (free : N -> bool) :
   same_static fp1 fp2 ->
   (forall f, free f = true -> suppress_in fp1 f = true) ->
-  (forall f r, group_in fp1 f = true -> free f = false ->
-               map_find f genc1 = Some (Ok r) -> map_find f genc2 = Some (Ok r)) ->
   forall p1 p2, Forall2 (entry_rel free) p1 p2 ->
+  (forall f r, In f (map e_fnum p1) -> group_in fp1 f = true -> free f = false ->
+               map_find f genc1 = Some (Ok r) -> map_find f genc2 = Some (Ok r)) ->
   forall b, enc_pos c fp1 genc1 p1 = Ok b -> enc_pos c fp2 genc2 p2 = Ok b.
 Proof.
-  intros Hs Hfree Hg p1 p2 HF. induction HF as [|[k1 [f1 v1]] [k2 [f2 v2]] p1 p2 [Ef Ev] HF IH]; intros b H.
+  intros Hs Hfree p1 p2 HF. induction HF as [|[k1 [f1 v1]] [k2 [f2 v2]] p1 p2 [Ef Ev] HF IH]; intros Hg b H.
   - exact H.
   - unfold e_fnum, e_val in Ef, Ev. cbn [fst snd] in Ef, Ev. subst f2.
+    assert (Hg' : forall f r, In f (map e_fnum p1) -> group_in fp1 f = true -> free f = false ->
+                  map_find f genc1 = Some (Ok r) -> map_find f genc2 = Some (Ok r))
+      by (intros f r Hin; apply Hg; right; exact Hin).
+    specialize (IH Hg').
     cbn [enc_pos] in *. specialize (Hs f1).
     destruct (find_trait fp1 f1) as [a|] eqn:E1; [|discriminate].
     destruct (find_trait fp2 f1) as [a2|] eqn:E2; [|destruct Hs].
@@ -49,12 +53,12 @@ Proof.
     subst v2.
     assert (Hnf : free f1 = false).
     { destruct (free f1) eqn:Efr; [|reflexivity]. apply Hfree in Efr. unfold suppress_in in Efr. rewrite E1, Es in Efr. discriminate. }
-    destruct (t_group a && has_group_count v1) eqn:Eg.
+    destruct (t_group a && has_group_count_c c f1 v1) eqn:Eg.
     + destruct (map_find f1 genc1) as [ge|] eqn:Em; [|discriminate].
       destruct ge as [gb| | | |]; try discriminate. cbn [bind] in H.
       destruct (enc_pos c fp1 genc1 p1) as [rb| | | |] eqn:Er; try discriminate. cbn [bind] in H.
       apply andb_true_iff in Eg. destruct Eg as [Eg _].
-      rewrite (Hg f1 gb); [|unfold group_in; rewrite E1; exact Eg|exact Hnf|exact Em].
+      rewrite (Hg f1 gb); [|left; reflexivity|unfold group_in; rewrite E1; exact Eg|exact Hnf|exact Em].
       cbn [bind]. rewrite (IH rb eq_refl). cbn [bind]. exact H.
     + destruct (enc_pos c fp1 genc1 p1) as [rb| | | |] eqn:Er; try discriminate. cbn [bind] in H.
       rewrite (IH rb eq_refl). cbn [bind]. exact H.
